@@ -30,7 +30,7 @@ META = {
         "fermionic_core.FermionicArray.unfuse",
     ],
     "floors": {
-        "quick": {"evaluations": 4000, "distinct_nontrivial": 500, "tables": {"strategy/insert": 1000, "strategy/concat": 1000, "kind/fermionic": 500, "roundtrip": 2000, "hook/plan-compared": 2000, "feature/nested": 50, "feature/single-axis-group": 300, "feature/conj-of-fused-before": 300, "feature/empty-group": 1000, "feature/signed-zeros": 500, "feature/group-of-5-or-more-axes": 1500, "feature/sector-with->=6-odd-charges-in-one-group": 100}},
+        "quick": {"evaluations": 4000, "distinct_nontrivial": 500, "tables": {"strategy/insert": 1000, "strategy/concat": 1000, "kind/fermionic": 500, "roundtrip": 2000, "hook/plan-compared": 2000, "feature/nested": 50, "feature/single-axis-group": 300, "feature/conj-of-fused-before": 300, "feature/empty-group": 1000, "feature/signed-zeros": 500, "feature/group-of-5-or-more-axes": 1500, "feature/sector-with->=6-odd-charges-in-one-group": 100, "roundtrip/nested-twins-unfolded": 5000}},
         "thorough": {"evaluations": 300000, "distinct_nontrivial": 30000, "tables": {"strategy/concat": 50000, "kind/fermionic": 30000, "feature/nested": 3000}},
     },
     "wall": {"quick": 900, "thorough": 1700},
@@ -465,6 +465,61 @@ def case_many_legs(ctx, hooks, rng):
             return
 
 
+def case_nested_twins(ctx, hooks, rng):
+    """Families of arrays that differ only at the BOTTOM of a fuse history (order / direction /
+    charge tables of the innermost pair), each fused twice ((0,1) then (0,1) again), fused a
+    third time with a random grouping and then unfolded completely, in one process with the
+    plan cache at its default size: every member must come back as itself. Members are visited
+    in random order, twice."""
+    from symv import c15ops
+
+    fam = c15ops.nested_chain_family(ctx.sr, rng, fuse=False, values="unique")
+    if len(fam) < 2:
+        return
+    hooks.set_cache(maxsize=8192, maxsectors=512, clear=rng.random() < 0.2)
+    gsets = groupings(rng, 3, 3)
+    visits = [(t, x, g) for t, x in fam for g in gsets] * 2
+    rng.shuffle(visits)
+    for tag_, x, groups in visits:
+        wit = {"family_member": tag_, "third_fuse_groups": [list(g) for g in groups], "x": describe(x, True), "siblings": [t for t, _ in fam]}
+        tag = f"[{tag_}] fuse((0,1)).fuse((0,1)).fuse{[list(g) for g in groups]} then unfolded"
+
+        def chain():
+            x2 = x.fuse((0, 1)).fuse((0, 1))
+            y = x2.fuse(*groups)
+            z = y
+            for _ in range(6):
+                if all(ix.subinfo is None for ix in z.indices):
+                    break
+                z = z.unfuse_all()
+            return x2, y, z
+
+        o = ctx.call(chain)
+        ctx.evaluated()
+        ctx.count("strategy", "auto")
+        ctx.count("kind", "fermionic" if is_fermionic(x) else "abelian")
+        ctx.count("feature", "nested-twins")
+        if not o.ok:
+            ctx.violation(f"fuse-raises-{o.excname}", f"{tag}: {o.exc!r}", wit)
+            continue
+        x2, y, z = o.value
+        if z.ndim != x.ndim:
+            ctx.violation("roundtrip-indices", f"{tag}: rank {z.ndim} after unfolding, {x.ndim} before", wit)
+            continue
+        _, _, _, perm2 = expected_layout(x2, groups)
+        order = []
+        for p_ in perm2:
+            order += [0, 1, 2] if p_ == 0 else [p_ + 2]
+        inv = tuple(order.index(i) for i in range(x.ndim))
+        o2 = ctx.call(lambda: z.transpose(inv))
+        if not o2.ok:
+            ctx.violation(f"transpose-raises-{o2.excname}", f"{tag}: {o2.exc!r}", wit)
+            continue
+        _same_as_original(ctx, x, o2.value, wit, tag)
+        ctx.count("roundtrip", "nested-twins-unfolded")
+        ctx.nontrivial(("twins", tag_, groups, struct_sig(x)))
+
+
 def case_nested(ctx, hooks, rng):
     """Groups containing already-fused axes."""
     sr = ctx.sr
@@ -556,6 +611,8 @@ def run(ctx):
         ctx.run_case(case_empty_groups, ctx, hooks, rng)
     for _, rng in ctx.cases("many-legs", ctx.budget(1500, 30000)):
         ctx.run_case(case_many_legs, ctx, hooks, rng)
+    for _, rng in ctx.cases("nested-twins", ctx.budget(1500, 30000)):
+        ctx.run_case(case_nested_twins, ctx, hooks, rng)
     for _, rng in ctx.cases("structure", ctx.budget(13000, 20000)):
         ctx.run_case(case_structure, ctx, hooks, rng)
     # the plan a fuse uses comes from a cache keyed by a digest: hunt for two different
